@@ -301,9 +301,10 @@ CLAIMS = {
         "technique": "Lean 4 lemmas on the PEG-engine model with an abstract custom matcher + emission-trace stream with registered regexes + call-log / metamorphic oracle",
     },
     "C02": {
-        "text": "compile_correct / program_correct (DS/Props/C02.lean, from run_compile in DS/Proofs/FragCompile.lean and run_stmts in "
-                "DS/Proofs/FragStmts.lean): for EVERY source tree of the fragment {integer / float / string literals, null, all 15 binary "
-                "operators, unary minus and plus, the ternary, ||, &&, variable references, assignments (as expressions), statement sequences s1; ...; sn} the code the "
+        "text": "compile_correct / program_correct / conditional_program_correct (DS/Props/C02.lean, from run_compile in "
+                "DS/Proofs/FragCompile.lean, run_stmts in DS/Proofs/FragStmts.lean and run_sts in DS/Proofs/FragIf.lean): for EVERY source tree of the fragment {integer / float / string literals, null, all 15 binary "
+                "operators, unary minus and plus, the ternary, ||, &&, variable references, assignments (as expressions), statement sequences s1; ...; sn, and if / if-else statements nested to any depth the VM's "
+                "20 block levels allow} the code the "
                 "compiler emits, run by the VM model's dispatch loop, ends with exactly the value (of the last statement) — or exactly "
                 "the first error — and the heap (which holds the variables) that the definitional, syntax-directed semantics evalF / "
                 "evalS prescribes; a name is in the fragment when the context's own table binds it to a plain value (unbound names — "
@@ -317,8 +318,7 @@ CLAIMS = {
                 "trees printed by an independent printer that follows the published grammar's precedence levels with random legal "
                 "whitespace and redundant parentheses, in sequences of 1-3 programs on one VM (value / error-ness per program, "
                 "variables after the sequence). Eight parser/compiler defects found this way were repaired.",
-        "note": TB + "The theorems cover expressions, variables bound to plain values, assignments and statement sequences; loops, "
-                     "conditionals as statements, functions, computed values, templates and containers are decided by the ref stream against the definitional semantics (a partial def, "
+        "note": TB + "The theorems cover expressions, variables bound to plain values, assignments, statement sequences and conditionals; loops, functions, computed values, templates and containers are decided by the ref stream against the definitional semantics (a partial def, "
                      "executable, not a proof object). Primitive operator tables are shared between the definitional semantics and "
                      "the VM model (they are C01's totality theorems' and the vm stream's subject). The printer is the statement of "
                      "the grammar's precedence and of where white space is legal.",
